@@ -164,6 +164,10 @@ package graph
 //@   except closure-precondition#1, nilderef#14, nilderef#18, precondition#1, precondition#2 : undischarged on the reference tree (engine limit or missing callee contract), not claimed
 //@   nopanic[C01,C13]
 //@   requires gwf(g) && t != nil && twf(t) && t.visitor != nil
+// C13/C19 bounded and live: the errgroup runs the coordinator goroutine plus the visitors, so its limit
+// reserves exactly one slot beyond the configured maximum (with a limit of maxConcurrency the coordinator
+// would occupy a visitor slot: one visitor too few, and a deadlock when the maximum is 1)
+//@   callsite[C13,C19] (*golang.org/x/sync/errgroup.Group).SetLimit : arg1 == t.Options.maxConcurrency + 1
 
 //@ func walk$1
 //@   except nilderef#2, nilrecv#1, nilrecv#2, panic#1, precondition#1, precondition#2 : undischarged on the reference tree (engine limit or missing callee contract), not claimed
